@@ -44,7 +44,7 @@ PROPS = {
     },
     "C07": {
         "props_files": ["Props/C07.v"],
-        "go_tests": ["TestVerifPolicy", "TestVerifDList"],
+        "go_tests": ["TestVerifPolicy", "TestVerifDList", "TestVerifFlags"],
         "level": "proof",
         "rule": "random insert / access / remove / cost-update / forced-climb sequences on the real TinyLfu for capacities 1..2000 "
                 "(tiny ones over-represented), costs skewed to 1, window capacity +-1 and the full capacity, sketch contents and "
